@@ -10,10 +10,10 @@
 // those handlers use and to the proxy's docker-registry storage driver
 // (`_uploads/<id>/...` paths).
 //
-// Observer: each store lives in a fresh tree  <parent>/sandbox/{upload,cache}
+// Observer: each store lives in a fresh tree  <top>/g3/g2/sandbox/{upload,cache}
 // with sentinel files next to the store directories (and, in the "planted"
 // variant, files called `data` where a one- or two-level escape would land).
-// The whole <parent> tree is snapshotted (path, type, size, mtime, sha256)
+// The whole <top> tree is snapshotted (path, type, size, mtime, sha256)
 // before and after every request. Oracle (property text): no file outside
 // sandbox/upload and sandbox/cache is created, modified or deleted; no response
 // carries the content of a sentinel (read outside); a storing request that is
@@ -35,12 +35,13 @@ import (
 	"net/url"
 	"os"
 	"path/filepath"
-	"runtime/pprof"
 	"sort"
 	"strings"
 	"sync"
 	"sync/atomic"
+	"syscall"
 	"time"
+	"unsafe"
 
 	"github.com/andres-erbsen/clock"
 	"github.com/go-chi/chi"
@@ -80,6 +81,7 @@ var (
 	// read through the tag store would be served back to the client.
 	plantedRootDigest   = mustDigest([]byte("c11 planted sandbox/data"))
 	plantedParentDigest = mustDigest([]byte("c11 planted parent/data"))
+	plantedG3Digest     = mustDigest([]byte("c11 planted g3/data"))
 
 	// origin: upload "a" holds blobA; requests carry digest(blobA).
 	blobA       = []byte("c11 origin blob A payload 0123456789")
@@ -107,47 +109,76 @@ type fent struct {
 	kind  byte // 'd' dir, 'f' regular, 'o' other
 	size  int64
 	mtime int64
+	ctime int64
+	ino   uint64
 	sum   [32]byte
 }
 
 type snapshot map[string]fent
 
-func takeSnapshot(parent string) (snapshot, error) {
-	s := snapshot{}
-	err := filepath.Walk(parent, func(p string, info os.FileInfo, err error) error {
+// takeSnapshot records every entry under parent. File contents are hashed; the
+// hash of prev is reused only when inode, size, mtime AND ctime are unchanged
+// (ctime cannot be set by a program, so an unchanged ctime means no write,
+// truncate, rename or chmod happened to that inode).
+func takeSnapshot(parent string, prev snapshot) (snapshot, error) {
+	s := make(snapshot, len(prev)+4)
+	if _, err := os.Lstat(parent); os.IsNotExist(err) {
+		return s, nil // the whole tree was removed: everything shows up as deleted
+	}
+	err := filepath.WalkDir(parent, func(p string, d os.DirEntry, err error) error {
 		if err != nil {
 			return err
 		}
-		rel, _ := filepath.Rel(parent, p)
-		if rel == "." {
+		if p == parent {
 			return nil
 		}
-		switch {
-		case info.IsDir():
+		rel := p[len(parent)+1:]
+		if d.IsDir() {
 			s[rel] = fent{kind: 'd'}
-		case info.Mode().IsRegular():
-			b, err := os.ReadFile(p)
-			if err != nil {
-				return err
-			}
-			s[rel] = fent{kind: 'f', size: info.Size(), mtime: info.ModTime().UnixNano(), sum: sha256.Sum256(b)}
-		default:
-			s[rel] = fent{kind: 'o', size: info.Size(), mtime: info.ModTime().UnixNano()}
+			return nil
 		}
+		info, err := d.Info()
+		if err != nil {
+			return err
+		}
+		e := fent{kind: 'o', size: info.Size(), mtime: info.ModTime().UnixNano()}
+		if st, ok := info.Sys().(*syscall.Stat_t); ok {
+			e.ino = st.Ino
+			e.ctime = st.Ctim.Sec*1e9 + st.Ctim.Nsec
+		}
+		if info.Mode().IsRegular() {
+			e.kind = 'f'
+			if pe, ok := prev[rel]; ok && pe.kind == 'f' && pe.ino == e.ino && pe.size == e.size && pe.mtime == e.mtime && pe.ctime == e.ctime && e.ino != 0 {
+				e.sum = pe.sum
+			} else {
+				b, err := os.ReadFile(p)
+				if err != nil {
+					return err
+				}
+				e.sum = sha256.Sum256(b)
+			}
+		}
+		s[rel] = e
 		return nil
 	})
 	return s, err
 }
 
 type change struct {
-	Path string `json:"path"` // relative to <parent>
+	Path string `json:"path"` // relative to <top>
 	Op   string `json:"op"`   // create | modify | delete
 }
 
-func isRoot(rel string) bool { return rel == "sandbox/upload" || rel == "sandbox/cache" }
+// Layout: <top>/g3/g2/sandbox/{upload,cache}. The store directories sit three
+// levels below the snapshot root so that an escape of up to three levels (the
+// deepest one a name of <= 5 tokens can express) still lands inside the tree
+// that is snapshotted and that belongs to this check alone.
+const pre = "g3/g2/"
+
+func isRoot(rel string) bool { return rel == pre+"sandbox/upload" || rel == pre+"sandbox/cache" }
 
 func inside(rel string) bool {
-	return strings.HasPrefix(rel, "sandbox/upload/") || strings.HasPrefix(rel, "sandbox/cache/")
+	return strings.HasPrefix(rel, pre+"sandbox/upload/") || strings.HasPrefix(rel, pre+"sandbox/cache/")
 }
 
 // diff returns the changes outside the store directories, the number of
@@ -228,12 +259,17 @@ type sandbox struct {
 	cas     *store.CAStore
 	driver  *dockerregistry.KrakenStorageDriver
 	closers []func()
+
+	ifd     int            // inotify instance watching every directory of base
+	watches map[int]string // watch descriptor -> directory (relative to parent, "" = parent)
 }
 
 func (sb *sandbox) close() {
 	for _, c := range sb.closers {
 		c()
 	}
+	// the inotify instance belongs to the worker; the kernel drops the watches
+	// together with the directories
 	os.RemoveAll(sb.parent)
 }
 
@@ -248,13 +284,15 @@ func writeSentinel(path, content string) error {
 	return os.Chtimes(path, old, old)
 }
 
-func newSandbox(sf *surface, planted bool) (*sandbox, error) {
+func newSandbox(sf *surface, planted bool, ifd int) (*sandbox, error) {
 	parent, err := os.MkdirTemp("", "c11-")
 	if err != nil {
 		return nil, err
 	}
-	sb := &sandbox{parent: parent}
-	root := filepath.Join(parent, "sandbox")
+	sb := &sandbox{parent: parent, ifd: ifd}
+	g2 := filepath.Join(parent, "g3", "g2")
+	g3 := filepath.Join(parent, "g3")
+	root := filepath.Join(g2, "sandbox")
 	if err := os.MkdirAll(root, 0o755); err != nil {
 		return nil, err
 	}
@@ -263,7 +301,8 @@ func newSandbox(sf *surface, planted bool) (*sandbox, error) {
 	}
 	// sentinels next to (never inside) the store directories
 	sent := map[string]string{
-		filepath.Join(parent, "outer.txt"):   outerSecret,
+		filepath.Join(g2, "outer.txt"):       outerSecret,
+		filepath.Join(g3, "outer3.txt"):      outerSecret + "-3",
 		filepath.Join(root, "sibling.txt"):   siblingSecret,
 		filepath.Join(root, "sib", "data"):   sibDirSecret,
 		filepath.Join(root, "sib", "_extra"): sibDirSecret + "-extra",
@@ -272,11 +311,13 @@ func newSandbox(sf *surface, planted bool) (*sandbox, error) {
 	if planted {
 		if sf.name == "build-index" || sf.name == "SimpleStore" {
 			sent[filepath.Join(root, "data")] = plantedRootDigest.String()
-			sent[filepath.Join(parent, "data")] = plantedParentDigest.String()
-			sb.secrets = append(sb.secrets, plantedRootDigest.Hex(), plantedParentDigest.Hex())
+			sent[filepath.Join(g2, "data")] = plantedParentDigest.String()
+			sent[filepath.Join(g3, "data")] = plantedG3Digest.String()
+			sb.secrets = append(sb.secrets, plantedRootDigest.Hex(), plantedParentDigest.Hex(), plantedG3Digest.Hex())
 		} else {
 			sent[filepath.Join(root, "data")] = plantedSecret
-			sent[filepath.Join(parent, "data")] = planted2Secr
+			sent[filepath.Join(g2, "data")] = planted2Secr
+			sent[filepath.Join(g3, "data")] = planted2Secr + "-3"
 			sb.secrets = append(sb.secrets, plantedSecret, planted2Secr)
 		}
 	}
@@ -285,11 +326,151 @@ func newSandbox(sf *surface, planted bool) (*sandbox, error) {
 			return nil, err
 		}
 	}
-	sb.base, err = takeSnapshot(parent)
+	sb.base, err = takeSnapshot(parent, nil)
 	if err != nil {
 		return nil, err
 	}
+	if err := sb.watch(); err != nil {
+		return nil, fmt.Errorf("inotify: %v", err)
+	}
 	return sb, nil
+}
+
+// ---------------------------------------------------------------------------
+// inotify: every directory that exists at baseline (the parent, the sandbox
+// directory, the sentinel directory, the store directories and everything in
+// them) is watched. Events are queued by the kernel synchronously with the file
+// operation, so after a request has returned the queue holds everything the
+// request did to an entry of a watched directory. It is used (a) to see opens /
+// reads of files outside the store directories and (b) to skip the snapshot
+// comparison when no mutating event at all was queued.
+
+const (
+	mutMask  = syscall.IN_CREATE | syscall.IN_DELETE | syscall.IN_MODIFY | syscall.IN_MOVED_FROM | syscall.IN_MOVED_TO | syscall.IN_ATTRIB | syscall.IN_DELETE_SELF | syscall.IN_MOVE_SELF | syscall.IN_CLOSE_WRITE
+	readMask = syscall.IN_OPEN | syscall.IN_ACCESS
+)
+
+func (sb *sandbox) watch() error {
+	fd := sb.ifd
+	sb.watches = map[int]string{}
+	// events of the previous sandbox of this worker (its removal) are stale
+	if _, _, err := sb.drain(); err != nil {
+		return err
+	}
+	dirs := []string{""}
+	for rel, e := range sb.base {
+		if e.kind == 'd' {
+			dirs = append(dirs, rel)
+		}
+	}
+	for _, rel := range dirs {
+		wd, err := syscall.InotifyAddWatch(fd, filepath.Join(sb.parent, rel), mutMask|readMask)
+		if err != nil {
+			return err
+		}
+		sb.watches[wd] = rel
+	}
+	return nil
+}
+
+// recycle brings the sandbox back to its initial state after a request whose
+// only effect was to ADD entries inside the store directories: the added
+// entries are removed, the store and its server are closed and instantiated
+// again over the same directories (no in-memory state survives), and a new
+// baseline is taken. Anything else (a baseline entry modified or removed, a
+// store root gone, any effect outside) is not handled here: the caller builds
+// a completely new sandbox. Returns false in that case.
+func (sb *sandbox) recycle(sf *surface, planted bool, v verdict) bool {
+	if v.after == nil || len(v.outside) > 0 || len(v.reads) > 0 || v.rootGone {
+		return false
+	}
+	var added []string
+	for p, b := range sb.base {
+		if a, ok := v.after[p]; !ok || a != b {
+			return false
+		}
+	}
+	for p := range v.after {
+		if _, ok := sb.base[p]; !ok {
+			if !inside(p) {
+				return false
+			}
+			added = append(added, p)
+		}
+	}
+	sort.Sort(sort.Reverse(sort.StringSlice(added))) // children before parents
+	for _, p := range added {
+		if err := os.Remove(filepath.Join(sb.parent, p)); err != nil {
+			return false
+		}
+	}
+	for _, c := range sb.closers {
+		c()
+	}
+	sb.closers = nil
+	if err := sf.build(sb, planted); err != nil {
+		return false
+	}
+	base, err := takeSnapshot(sb.parent, sb.base)
+	if err != nil {
+		return false
+	}
+	// the outside part must be exactly what it was
+	for p, b := range sb.base {
+		if !inside(p) && !isRoot(p) && base[p] != b {
+			return false
+		}
+	}
+	sb.base = base
+	return sb.watch() == nil
+}
+
+type fsEvent struct {
+	rel  string
+	mask uint32
+}
+
+// drain returns the queued events (overflow = the kernel dropped some).
+func (sb *sandbox) drain() (evs []fsEvent, overflow bool, err error) {
+	var buf [16384]byte
+	for {
+		n, rerr := syscall.Read(sb.ifd, buf[:])
+		if rerr == syscall.EAGAIN || n == 0 {
+			return evs, overflow, nil
+		}
+		if rerr == syscall.EINTR {
+			continue
+		}
+		if rerr != nil {
+			return nil, false, rerr
+		}
+		for off := 0; off+syscall.SizeofInotifyEvent <= n; {
+			raw := (*syscall.InotifyEvent)(unsafe.Pointer(&buf[off]))
+			nameLen := int(raw.Len)
+			name := ""
+			if nameLen > 0 {
+				b := buf[off+syscall.SizeofInotifyEvent : off+syscall.SizeofInotifyEvent+nameLen]
+				if i := bytes.IndexByte(b, 0); i >= 0 {
+					b = b[:i]
+				}
+				name = string(b)
+			}
+			off += syscall.SizeofInotifyEvent + nameLen
+			if raw.Mask&syscall.IN_Q_OVERFLOW != 0 {
+				overflow = true
+				continue
+			}
+			if raw.Mask&syscall.IN_IGNORED != 0 {
+				continue
+			}
+			dir, ok := sb.watches[int(raw.Wd)]
+			if !ok {
+				continue
+			}
+			rel := filepath.Join(dir, name)
+			evs = append(evs, fsEvent{rel, raw.Mask})
+		}
+	}
 }
 
 // ---------------------------------------------------------------------------
@@ -314,9 +495,9 @@ func (fakeBackend) Close() error { return nil }
 
 type fakeRetry struct{}
 
-func (fakeRetry) Add(persistedretry.Task) error                  { return nil }
-func (fakeRetry) SyncExec(persistedretry.Task) error             { return nil }
-func (fakeRetry) Close()                                         {}
+func (fakeRetry) Add(persistedretry.Task) error                   { return nil }
+func (fakeRetry) SyncExec(persistedretry.Task) error              { return nil }
+func (fakeRetry) Close()                                          {}
 func (fakeRetry) Find(interface{}) ([]persistedretry.Task, error) { return nil, nil }
 
 type fakeResolver struct{}
@@ -345,9 +526,9 @@ func (fakeCluster) GetMetaInfo(string, core.Digest) (*core.MetaInfo, error) {
 func (fakeCluster) Stat(string, core.Digest) (*core.BlobInfo, error) {
 	return nil, blobclient.ErrBlobNotFound
 }
-func (fakeCluster) OverwriteMetaInfo(core.Digest, int64) error            { return errRemote }
-func (fakeCluster) Owners(core.Digest) ([]core.PeerContext, error)         { return nil, errRemote }
-func (fakeCluster) ReplicateToRemote(string, core.Digest, string) error    { return errRemote }
+func (fakeCluster) OverwriteMetaInfo(core.Digest, int64) error          { return errRemote }
+func (fakeCluster) Owners(core.Digest) ([]core.PeerContext, error)      { return nil, errRemote }
+func (fakeCluster) ReplicateToRemote(string, core.Digest, string) error { return errRemote }
 
 type fakeTagProvider struct{}
 
@@ -372,11 +553,24 @@ func (fakeTransferer) Download(string, core.Digest) (store.FileReader, error) {
 	return nil, errRemote
 }
 func (fakeTransferer) Upload(string, core.Digest, store.FileReader) error { return nil }
-func (fakeTransferer) GetTag(string) (core.Digest, error)                  { return core.Digest{}, errRemote }
-func (fakeTransferer) PutTag(string, core.Digest) error                    { return nil }
-func (fakeTransferer) ListTags(string) ([]string, error)                   { return nil, nil }
+func (fakeTransferer) GetTag(string) (core.Digest, error)                 { return core.Digest{}, errRemote }
+func (fakeTransferer) PutTag(string, core.Digest) error                   { return nil }
+func (fakeTransferer) ListTags(string) ([]string, error)                  { return nil, nil }
 
+var (
+	backendsOnce sync.Once
+	backendsVal  *backend.Manager
+	backendsErr  error
+)
+
+// newBackends returns the (stateless, shared) backend manager whose only
+// client is the fake remote storage.
 func newBackends() (*backend.Manager, error) {
+	backendsOnce.Do(func() { backendsVal, backendsErr = newBackends0() })
+	return backendsVal, backendsErr
+}
+
+func newBackends0() (*backend.Manager, error) {
 	m, err := backend.NewManager(backend.ManagerConfig{}, nil, backend.AuthConfig{}, tally.NoopScope)
 	if err != nil {
 		return nil, err
@@ -391,7 +585,7 @@ func newBackends() (*backend.Manager, error) {
 // surfaces
 
 func (sb *sandbox) dirs() (upload, cache string) {
-	return filepath.Join(sb.parent, "sandbox", "upload"), filepath.Join(sb.parent, "sandbox", "cache")
+	return filepath.Join(sb.parent, "g3", "g2", "sandbox", "upload"), filepath.Join(sb.parent, "g3", "g2", "sandbox", "cache")
 }
 
 func buildSimple(sb *sandbox) error {
@@ -421,18 +615,24 @@ func buildCAS(sb *sandbox) error {
 	}
 	sb.cas = cas
 	sb.closers = append(sb.closers, cas.Close)
-	// one legitimate upload in progress, id "a", holding blobA
-	if err := cas.CreateUploadFile("a", 0); err != nil {
+	// one legitimate upload in progress, id "a", holding blobA (written the way
+	// the store lays it out; the store picks it up from disk like after a reload)
+	if err := os.MkdirAll(filepath.Join(up, "a"), 0o775); err != nil {
 		return err
 	}
-	w, err := cas.GetUploadFileReadWriter("a")
-	if err != nil {
+	return os.WriteFile(filepath.Join(up, "a", "data"), blobA, 0o775)
+}
+
+func prestoreTagA(sb *sandbox) error {
+	_, ca := sb.dirs()
+	if err := os.MkdirAll(filepath.Join(ca, "a"), 0o775); err != nil {
 		return err
 	}
-	if _, err := w.Write(blobA); err != nil {
+	if err := os.WriteFile(filepath.Join(ca, "a", "data"), []byte(tagDigest.String()), 0o775); err != nil {
 		return err
 	}
-	return w.Close()
+	b, _ := metadata.NewPersist(true).Serialize()
+	return os.WriteFile(filepath.Join(ca, "a", metadata.NewPersist(true).GetSuffix()), b, 0o775)
 }
 
 func buildBuildIndex(sb *sandbox, planted bool) error {
@@ -452,12 +652,8 @@ func buildBuildIndex(sb *sandbox, planted bool) error {
 	if sb.routes == nil {
 		return errors.New("tagserver handler is not a chi router")
 	}
-	// one legitimate tag "a" stored through the real endpoint
-	r := doHTTP(sb, "PUT", "/tags/a/digest/"+tagDigest.String(), nil, nil)
-	if r.status != 200 {
-		return fmt.Errorf("prestore tag a: status %d %s", r.status, r.body)
-	}
-	return nil
+	// one legitimate tag "a" already on disk (as after a restart)
+	return prestoreTagA(sb)
 }
 
 func buildOrigin(sb *sandbox, planted bool) error {
@@ -490,8 +686,7 @@ func buildProxyDriver(sb *sandbox, planted bool) error {
 		return err
 	}
 	sb.driver = dockerregistry.NewReadWriteStorageDriver(dockerregistry.Config{}, sb.cas, fakeTransferer{}, dockerregistry.DefaultVerificationFunc)
-	// the legitimate upload "a" gets its startedat sidecar like a registry upload
-	return sb.driver.PutContent(context.Background(), uploadPath("a2", "startedat"), nil)
+	return nil
 }
 
 // doHTTP serves one request exactly as net/http would hand it to the handler:
@@ -525,8 +720,8 @@ func doHTTP(sb *sandbox, method, target string, body []byte, hdr map[string]stri
 // httpOp builds an op that substitutes p into the path template at "{}".
 func httpOp(method, pattern, param, tmpl string, stores bool, body []byte, hdr map[string]string) op {
 	label := fmt.Sprintf("%s %s [%s]", method, pattern, param)
-	if strings.Contains(tmpl, "?replicate=true") {
-		label += " replicate=true"
+	if strings.Contains(tmpl, "sha256:{}") {
+		label += " sha256:-prefixed"
 	}
 	return op{label: label, stores: stores, run: func(sb *sandbox, p string) opResult {
 		target := strings.Replace(tmpl, "{}", p, 1)
@@ -562,7 +757,6 @@ func buildIndexSurface() *surface {
 		prestore: map[string]bool{"a": true},
 		ops: []op{
 			httpOp("PUT", "/tags/{tag}/digest/{digest}", "tag", "/tags/{}/digest/"+dg, true, nil, nil),
-			httpOp("PUT", "/tags/{tag}/digest/{digest}", "tag", "/tags/{}/digest/"+dg+"?replicate=true", true, nil, nil),
 			httpOp("GET", "/tags/{tag}", "tag", "/tags/{}", false, nil, nil),
 			httpOp("HEAD", "/tags/{tag}", "tag", "/tags/{}", false, nil, nil),
 			httpOp("POST", "/remotes/tags/{tag}", "tag", "/remotes/tags/{}", false, nil, nil),
@@ -571,6 +765,7 @@ func buildIndexSurface() *surface {
 			httpOp("GET", "/repositories/{repo}/tags", "repo", "/repositories/{}/tags", false, nil, nil),
 			httpOp("GET", "/list/*", "*", "/list/{}", false, nil, nil),
 			httpOp("PUT", "/tags/{tag}/digest/{digest}", "digest", "/tags/a/digest/{}", false, nil, nil),
+			httpOp("PUT", "/tags/{tag}/digest/{digest}", "digest", "/tags/a/digest/sha256:{}", false, nil, nil),
 		},
 	}
 }
@@ -589,15 +784,17 @@ func originSurface() *surface {
 			httpOp("PUT", "/internal/blobs/{digest}/uploads/{uid}", "uid", "/internal/blobs/"+dg+"/uploads/{}", false, nil, nil),
 			httpOp("PUT", "/internal/duplicate/namespace/{namespace}/blobs/{digest}/uploads/{uid}", "uid", "/internal/duplicate/namespace/ns/blobs/"+dg+"/uploads/{}", false, dupCommit, nil),
 			// blob name
-			httpOp("GET", "/blobs/{digest}/locations", "digest", "/blobs/{}/locations", false, nil, nil),
-			httpOp("POST", "/namespace/{namespace}/blobs/{digest}/uploads", "digest", "/namespace/ns/blobs/{}/uploads", false, nil, nil),
-			httpOp("PUT", "/namespace/{namespace}/blobs/{digest}/uploads/{uid}", "digest", "/namespace/ns/blobs/{}/uploads/a", false, nil, nil),
+			httpOp("GET", "/blobs/{digest}/locations", "digest", "/blobs/sha256:{}/locations", false, nil, nil),
+			httpOp("POST", "/namespace/{namespace}/blobs/{digest}/uploads", "digest", "/namespace/ns/blobs/sha256:{}/uploads", false, nil, nil),
+			httpOp("PUT", "/namespace/{namespace}/blobs/{digest}/uploads/{uid}", "digest", "/namespace/ns/blobs/sha256:{}/uploads/a", false, nil, nil),
 			httpOp("GET", "/namespace/{namespace}/blobs/{digest}", "digest", "/namespace/ns/blobs/{}", false, nil, nil),
-			httpOp("POST", "/internal/blobs/{digest}/uploads", "digest", "/internal/blobs/{}/uploads", false, nil, nil),
+			httpOp("GET", "/namespace/{namespace}/blobs/{digest}", "digest", "/namespace/ns/blobs/sha256:{}", false, nil, nil),
+			httpOp("POST", "/internal/blobs/{digest}/uploads", "digest", "/internal/blobs/sha256:{}/uploads", false, nil, nil),
 			httpOp("DELETE", "/internal/blobs/{digest}", "digest", "/internal/blobs/{}", false, nil, nil),
-			httpOp("POST", "/internal/blobs/{digest}/metainfo", "digest", "/internal/blobs/{}/metainfo?piece_length=4", false, nil, nil),
-			httpOp("HEAD", "/internal/namespace/{namespace}/blobs/{digest}", "digest", "/internal/namespace/ns/blobs/{}", false, nil, nil),
-			httpOp("GET", "/internal/namespace/{namespace}/blobs/{digest}/metainfo", "digest", "/internal/namespace/ns/blobs/{}/metainfo", false, nil, nil),
+			httpOp("DELETE", "/internal/blobs/{digest}", "digest", "/internal/blobs/sha256:{}", false, nil, nil),
+			httpOp("POST", "/internal/blobs/{digest}/metainfo", "digest", "/internal/blobs/sha256:{}/metainfo?piece_length=4", false, nil, nil),
+			httpOp("HEAD", "/internal/namespace/{namespace}/blobs/{digest}", "digest", "/internal/namespace/ns/blobs/sha256:{}", false, nil, nil),
+			httpOp("GET", "/internal/namespace/{namespace}/blobs/{digest}/metainfo", "digest", "/internal/namespace/ns/blobs/sha256:{}/metainfo", false, nil, nil),
 			// namespace / remote
 			httpOp("GET", "/namespace/{namespace}/blobs/{digest}", "namespace", "/namespace/{}/blobs/"+dg, false, nil, nil),
 			httpOp("HEAD", "/internal/namespace/{namespace}/blobs/{digest}", "namespace", "/internal/namespace/{}/blobs/"+dg, false, nil, nil),
@@ -634,7 +831,7 @@ func simpleStoreSurface() *surface {
 			if err := buildSimple(sb); err != nil {
 				return err
 			}
-			return sb.simple.CreateCacheFile("a", strings.NewReader(tagDigest.String()))
+			return prestoreTagA(sb)
 		},
 		prestore: map[string]bool{"a": true},
 		ops: []op{
@@ -725,7 +922,7 @@ func proxyDriverSurface() *surface {
 	blobPath := fmt.Sprintf("/docker/registry/v2/blobs/sha256/%s/%s/data", blobADigest.Hex()[:2], blobADigest.Hex())
 	return &surface{
 		name: "proxy-driver", build: buildProxyDriver,
-		prestore: map[string]bool{"a": true, "a2": true},
+		prestore: map[string]bool{"a": true},
 		ops: []op{
 			driverOp("StorageDriver.PutContent startedat", true, "startedat", func(sb *sandbox, p string) ([]byte, error) {
 				return nil, sb.driver.PutContent(ctx, p, nil)
@@ -815,14 +1012,18 @@ func directNames(ps []string) []string {
 
 type verdict struct {
 	outside  []change
+	reads    []string // files outside the store directories that were opened / read
 	leaks    []string
 	unstored bool
 	insideN  int
+	after    snapshot // tree after the request (only when something mutated)
 	rootGone bool
 	changed  bool
 }
 
-func (v verdict) bad() bool { return len(v.outside) > 0 || len(v.leaks) > 0 || v.unstored }
+func (v verdict) bad() bool {
+	return len(v.outside) > 0 || len(v.leaks) > 0 || len(v.reads) > 0 || v.unstored
+}
 
 func (v verdict) class() string {
 	var parts []string
@@ -832,14 +1033,14 @@ func (v verdict) class() string {
 	}
 	for _, k := range []string{"create", "modify", "delete"} {
 		if kinds[k] {
-			parts = append(parts, k+"s files")
+			parts = append(parts, map[string]string{"create": "creates", "modify": "modifies", "delete": "deletes"}[k])
 		}
 	}
-	if len(v.leaks) > 0 {
-		parts = append(parts, "serves content of files")
+	if len(v.leaks) > 0 || len(v.reads) > 0 {
+		parts = append(parts, "reads")
 	}
 	if len(parts) > 0 {
-		return strings.Join(parts, " + ") + " outside the store directories"
+		return strings.Join(parts, "+") + " files outside the store directories"
 	}
 	if v.unstored {
 		return "answers success without storing the name inside the store directory"
@@ -848,14 +1049,39 @@ func (v verdict) class() string {
 }
 
 func judge(sf *surface, o *op, sb *sandbox, res opResult) (verdict, error) {
-	after, err := takeSnapshot(sb.parent)
-	if err != nil {
-		return verdict{}, err
-	}
 	var v verdict
-	var newFile bool
-	v.outside, v.insideN, newFile, v.rootGone = diff(sb.base, after)
-	v.changed = len(v.outside) > 0 || v.insideN > 0 || v.rootGone
+	evs, overflow, err := sb.drain()
+	if err != nil {
+		return v, err
+	}
+	mutated := overflow
+	readSet := map[string]bool{}
+	for _, e := range evs {
+		if e.mask&mutMask != 0 {
+			mutated = true
+		}
+		if e.mask&readMask != 0 && e.mask&syscall.IN_ISDIR == 0 && !inside(e.rel) && !isRoot(e.rel) {
+			readSet[e.rel] = true
+		}
+	}
+	for r := range readSet {
+		v.reads = append(v.reads, r)
+	}
+	sort.Strings(v.reads)
+	newFile := false
+	if mutated {
+		after, err := takeSnapshot(sb.parent, sb.base)
+		if err != nil {
+			return v, err
+		}
+		v.after = after
+		v.outside, v.insideN, newFile, v.rootGone = diff(sb.base, after)
+		v.changed = len(v.outside) > 0 || v.insideN > 0 || v.rootGone
+		// the snapshot itself opened the changed files: forget those events
+		if _, _, err := sb.drain(); err != nil {
+			return v, err
+		}
+	}
 	for _, s := range sb.secrets {
 		if bytes.Contains(res.body, []byte(s)) {
 			v.leaks = append(v.leaks, s)
@@ -877,27 +1103,27 @@ func shortName(n string) string {
 // ---------------------------------------------------------------------------
 // driver
 
+type violAgg struct {
+	first map[string]interface{}
+	n     int
+	via   map[string]map[string]bool // route/call [variant] -> inputs
+}
+
 type counters struct {
-	requests, routed, parseRejected, accepted, rejected, insideEffects, outsideEffects, leaks, unstored, rootGone, rebuilds, panics int64
+	requests, routed, recycles, parseRejected, accepted, rejected, insideEffects, outsideEffects, leaks, unstored, rootGone, rebuilds, panics int64
 }
 
 func main() {
 	run := evid.New("C11", "exploration")
-	if pf := os.Getenv("C11_PROF"); pf != "" {
-		f, _ := os.Create(pf)
-		pprof.StartCPUProfile(f)
-		defer pprof.StopCPUProfile()
-		go func() { time.Sleep(40 * time.Second); pprof.StopCPUProfile(); f.Close(); os.Exit(3) }()
-	}
 	maxLen := 4
-	budget := 150 * time.Second
+	budget := 240 * time.Second
 	if run.Thorough() {
 		maxLen = 5
-		budget = 20 * time.Minute
+		budget = 14 * time.Minute
 	}
 	ps, nSeq := params(maxLen)
 	names := directNames(ps)
-	run.Rule = fmt.Sprintf("all %d token sequences of length 1..%d over {. / a %%2e %%2f %%25 .. \\} -> %d distinct URL parameter strings (each raw and url.PathEscape'd) substituted into every parameterised route of the real build-index tag server and origin blob server (ServeHTTP), and %d distinct unescaped names passed to the SimpleStore/CAStore APIs and to the proxy storage driver's _uploads/<id> paths; every case is run in a bare and in a planted sandbox (files named `data` beside and above the store directories). A case is counted distinct and non-trivial when the router/API delivered the string to the code under test: key = (surface, route or call, name as seen after unescaping).", nSeq, maxLen, len(ps), len(names))
+	run.Rule = fmt.Sprintf("all %d token sequences of length 1..%d over {. / a %%2e %%2f %%25 .. \\} -> %d distinct URL parameter strings (each raw and url.PathEscape'd) substituted into every parameterised route of the real build-index tag server and origin blob server (ServeHTTP; {digest} parameters also with a leading `sha256:`), and %d distinct unescaped names passed to the SimpleStore/CAStore APIs and to the proxy storage driver's _uploads/<id> paths; every case is run in a bare and in a planted sandbox (files named `data` beside and above the store directories). A case is counted distinct and non-trivial when the router/API delivered the string to the code under test: key = (surface, route or call, name as seen after unescaping).", nSeq, maxLen, len(ps), len(names))
 	run.Assume("small-scope: names of at most " + fmt.Sprint(maxLen) + " tokens over the 8-token hostile alphabet; longer names and other bytes (NUL, unicode, other percent escapes) are not enumerated")
 	run.Assume("observer: before/after snapshot (path,type,size,mtime,sha256) of the whole parent tree of the store directories; creation/modification/deletion outside is always seen, a pure read outside is seen only when its content reaches the response (sentinel contents are searched in every response body / returned byte slice)")
 	run.Assume("remote services (storage backend, other origins, neighbours, write-back queue, tag replication) are fakes; names handed to them are not files of this server")
@@ -937,6 +1163,8 @@ func main() {
 	var next atomic.Int64
 	var wg sync.WaitGroup
 	sampleSeen := map[string]bool{}
+	viols := map[string]*violAgg{}
+	var rootGoneCases []string
 
 	variantName := func(p bool) string {
 		if p {
@@ -947,6 +1175,13 @@ func main() {
 
 	worker := func() {
 		defer wg.Done()
+		// one inotify instance per worker (closing an instance is slow in the
+		// kernel); every sandbox adds its own watches to it
+		ifd, err := syscall.InotifyInit1(syscall.IN_NONBLOCK | syscall.IN_CLOEXEC)
+		if err != nil {
+			run.Fatal(fmt.Errorf("inotify_init: %v", err))
+		}
+		defer syscall.Close(ifd)
 		local := map[string]map[string]int64{}
 		defer func() {
 			mu.Lock()
@@ -972,7 +1207,7 @@ func main() {
 			t := tasks[i]
 			var sb *sandbox
 			fresh := func() *sandbox {
-				s, err := newSandbox(t.sf, t.planted)
+				s, err := newSandbox(t.sf, t.planted, ifd)
 				if err != nil {
 					run.Fatal(err)
 				}
@@ -1019,8 +1254,13 @@ func main() {
 					if v.insideN > 0 {
 						atomic.AddInt64(&cnt.insideEffects, 1)
 					}
-					if v.rootGone {
+					if v.rootGone && !v.bad() {
 						atomic.AddInt64(&cnt.rootGone, 1)
+						mu.Lock()
+						if len(rootGoneCases) < 20 {
+							rootGoneCases = append(rootGoneCases, res.input+" ["+variantName(t.planted)+"]")
+						}
+						mu.Unlock()
 					}
 					sk := t.sf.name + "|" + outcome
 					mu.Lock()
@@ -1046,18 +1286,33 @@ func main() {
 						if v.unstored {
 							atomic.AddInt64(&cnt.unstored, 1)
 						}
-						fp := fmt.Sprintf("%s %s: %s (name %q)", t.sf.name, o.label, v.class(), shortName(res.name))
-						run.Violation(fp, map[string]interface{}{
-							"surface": t.sf.name, "sandbox": variantName(t.planted), "input": res.input,
-							"name_after_unescape": res.name, "status": res.status, "response": truncate(string(res.body), 200),
-							"changes_outside_store_dirs": v.outside, "sentinel_contents_in_response": v.leaks,
-							"success_without_file_inside": v.unstored,
-							"layout":                     "<parent>/sandbox/{upload,cache} are the store directories; paths are relative to <parent>",
-						})
+						fp := fmt.Sprintf("%s: %s (name %q)", t.sf.name, v.class(), shortName(res.name))
+						mu.Lock()
+						ag := viols[fp]
+						if ag == nil {
+							ag = &violAgg{first: map[string]interface{}{
+								"surface": t.sf.name, "sandbox": variantName(t.planted), "input": res.input,
+								"name_after_unescape": res.name, "status": res.status, "response": truncate(string(res.body), 200),
+								"changes_outside_store_dirs": v.outside, "files_outside_opened_or_read": v.reads, "sentinel_contents_in_response": v.leaks,
+								"success_without_file_inside": v.unstored,
+							}, via: map[string]map[string]bool{}}
+							viols[fp] = ag
+						}
+						ag.n++
+						k := o.label + " [" + variantName(t.planted) + " sandbox]"
+						if ag.via[k] == nil {
+							ag.via[k] = map[string]bool{}
+						}
+						ag.via[k][res.input] = true
+						mu.Unlock()
 					}
-					if v.changed || res.status < 400 || res.status == 599 || v.bad() {
-						sb.close()
-						sb = nil
+					if v.changed || res.status == 599 || v.bad() {
+						if res.status == 599 || v.bad() || !sb.recycle(t.sf, t.planted, v) {
+							sb.close()
+							sb = nil
+						} else {
+							atomic.AddInt64(&cnt.recycles, 1)
+						}
 					}
 				}
 			}
@@ -1072,6 +1327,30 @@ func main() {
 		go worker()
 	}
 	wg.Wait()
+	// one report per failure class, listing every route / call and input that reaches it
+	var fps []string
+	for fp := range viols {
+		fps = append(fps, fp)
+	}
+	sort.Strings(fps)
+	for _, fp := range fps {
+		ag := viols[fp]
+		via := map[string][]string{}
+		for k, ins := range ag.via {
+			for in := range ins {
+				via[k] = append(via[k], in)
+			}
+			sort.Strings(via[k])
+		}
+		run.Violation(fp, map[string]interface{}{
+			"layout":          "<top>/g3/g2/sandbox/{upload,cache} are the store directories; paths are relative to <top>",
+			"example":         ag.first,
+			"violating_cases": ag.n,
+			"reached_through": via,
+		})
+	}
+	sort.Strings(rootGoneCases)
+	run.Set("store_root_removed_cases(not judged)", rootGoneCases)
 	if timedOut.Load() {
 		run.NotExhaustive(fmt.Sprintf("time budget %s hit after %d requests", budget, cnt.requests))
 	}
@@ -1088,8 +1367,9 @@ func main() {
 	run.Set("requests_with_effect_outside_store", cnt.outsideEffects)
 	run.Set("requests_leaking_sentinel_content", cnt.leaks)
 	run.Set("requests_success_without_store", cnt.unstored)
-	run.Set("requests_removing_a_store_root_dir(not judged)", cnt.rootGone)
+	run.Set("requests_removing_only_a_store_root_dir(not judged)", cnt.rootGone)
 	run.Set("sandbox_builds", cnt.rebuilds)
+	run.Set("sandbox_store_reinstantiations", cnt.recycles)
 	run.Set("handler_panics", cnt.panics)
 	run.Set("per_route_outcomes", opStats)
 	run.Set("workers", nw)
